@@ -2,18 +2,56 @@ package main
 
 import (
 	"fmt"
+	"net/http"
+	"strings"
+
+	"github.com/bolkedebruin/rdpgw/cmd/rdpgw/protocol"
 
 	"verif/internal/tsgu"
+	"verif/shim/vsched"
 )
 
 // C17 — authentication capability negotiation follows the configured requirements.
 
 func init() { props["C17"] = c17 }
 
+// c17Prelude: an earlier tunnel (another connection id) goes through a whole session and ends with an orderly
+// channel close; the observed handshake then meets a gateway that is not in its initial state.
+func c17Prelude(token bool) func(w *World, h http.Handler, gw *protocol.Gateway) {
+	return func(w *World, h http.Handler, gw *protocol.Gateway) {
+		id := NewIdentity("bob", "10.0.0.2", "10.0.0.2:50000")
+		c, ok := w.OpenTunnel("ws", h, gw, "conn-0", "10.0.0.2:50000", id, nil)
+		if !ok {
+			return
+		}
+		hs, tc := tsgu.Handshake(1, 0, 0, 0), tsgu.TunnelCreate("", false)
+		if token {
+			hs, tc = tsgu.Handshake(1, 0, 0, tsgu.ExtAuthPAA), tsgu.TunnelCreate("ok|"+hostA+":3389|10.0.0.2|bob", true)
+		}
+		for _, p := range [][]byte{hs, tc, tsgu.TunnelAuth("pc"), tsgu.ChannelCreate(hostA, 3389), tsgu.Data([]byte("x")), tsgu.CloseChannel()} {
+			c.SendSegment(p)
+			vsched.WaitIdle()
+		}
+		c.CloseClient()
+		vsched.WaitIdle()
+	}
+}
+
+// kind is proc | ws | legacy, optionally followed by "+coalesced" (handshake and tunnel create arrive in one
+// transport read) and / or "+after-session" (handler level only: see c17Prelude).
 func c17One(token, sc bool, major, minor byte, ver, ext uint16, kind string, rep *Report) (viol string, detail string, obs string) {
-	cfg := c01Cfg(token, sc, kind)
+	base := strings.SplitN(kind, "+", 2)[0]
+	coalesced := strings.Contains(kind, "+coalesced")
+	cfg := c01Cfg(token, sc, base)
+	if strings.Contains(kind, "+after-session") && base != "proc" && !sc {
+		cfg.Prelude = c17Prelude(token)
+	}
 	tc := tsgu.TunnelCreate("ok|"+hostA+":3389|10.0.0.1|alice", true)
-	res := RunSeq(cfg, []Seg{{Bytes: tsgu.Handshake(major, minor, ver, ext)}, {Bytes: tc}})
+	segs := []Seg{{Bytes: tsgu.Handshake(major, minor, ver, ext)}, {Bytes: tc}}
+	if coalesced {
+		segs = []Seg{{Bytes: append(append([]byte{}, tsgu.Handshake(major, minor, ver, ext)...), tc...)}}
+	}
+	res := RunSeq(cfg, segs)
 	rep.add("executions", 1)
 	rep.add("transitions", int64(res.StepsRun))
 	if res.Abort != "" {
@@ -21,6 +59,17 @@ func c17One(token, sc bool, major, minor byte, ver, ext uint16, kind string, rep
 	}
 	if len(res.Panics) > 0 {
 		return "panic", res.Panics[0].Value, "panic"
+	}
+	if coalesced && res.Opened && len(res.Steps) == 1 {
+		// both packets were one read: the first response answers the handshake, the rest belongs to the tunnel create
+		o := res.Steps[0]
+		first, rest := o, o
+		if len(o.Resps) > 0 {
+			first.Resps, rest.Resps = o.Resps[:1], o.Resps[1:]
+		}
+		first.Dials, first.BackendNew = nil, nil
+		first.Ended = o.Ended && len(o.Resps) <= 1 && false
+		res.Steps = []StepObs{first, rest}
 	}
 	if !res.Opened || len(res.Steps) != 2 {
 		return "no-transport", "", ""
@@ -80,7 +129,7 @@ func c17One(token, sc bool, major, minor byte, ver, ext uint16, kind string, rep
 func c17(env *Env, rep *Report) {
 	rep.Rule = "for all 4 server settings of {cookie auth, smart-card auth}: every one of the 65536 client extended-auth values (x version byte pairs (1,0),(0,0),(255,255) in thorough), and all 65536 version byte pairs for client values {0,1,2,3,4,0xFFFF} (quick: for client value 2 only); " +
 		"each is one execution of the real Processor: HANDSHAKE then a well-formed TUNNEL_CREATE; the handshake must succeed iff both sides are empty or intersect, advertise exactly the enabled mechanisms, echo the version bytes; on failure status E_PROXY_CAPABILITYMISMATCH, tunnel ended, TUNNEL_CREATE unanswered. " +
-		"A sample of the same cases runs over the websocket and legacy handlers. distinct_nontrivial = distinct (setting, client value, version) cases evaluated."
+		"A sample of the same cases runs over the websocket and legacy handlers, with the handshake and the tunnel create arriving in one transport read, and after an earlier tunnel went through a whole session ending in an orderly close (non-initial gateway state). distinct_nontrivial = distinct (setting, client value, version) cases evaluated."
 	rep.Assumptions = append(rep.Assumptions, "processor level over a message pipe (one packet per read); client version word fixed to 0")
 	type cse struct {
 		token, sc    bool
@@ -149,7 +198,7 @@ func c17(env *Env, rep *Report) {
 					run(cse{token, sc, byte(vv >> 8), byte(vv), ext, "proc"})
 				}
 			}
-			for _, kind := range []string{"ws", "legacy"} {
+			for _, kind := range []string{"ws", "legacy", "proc+coalesced", "ws+coalesced", "legacy+coalesced", "ws+after-session", "legacy+after-session", "ws+coalesced+after-session"} {
 				for ext := 0; ext < 65536; ext += 257 {
 					run(cse{token, sc, 1, 0, uint16(ext), kind})
 				}
